@@ -67,8 +67,7 @@ Progs ==
   ELSE { [files |-> ("file.a" :> File(ABody(fa, ops), TRUE)) @@ ("file.b" :> File(BBody(fb, op), TRUE)) @@
                     ("modules.m" :> File(MBody(body), FALSE)),
           order |-> <<"file.a", "file.b">>, events |-> <<"e1">>]
-         : <<fa, ops>> \in { <<f, o>> : f \in Forms, o \in UNION { Seqs(Ops(g, "a1"), OpsA) : g \in Forms } } \cap
-                         UNION { { <<f, o>> : o \in Seqs(Ops(f, "a1"), OpsA) } : f \in Forms },
+         : <<fa, ops>> \in UNION { { <<f, o>> : o \in Seqs(Ops(f, "a1"), OpsA) } : f \in Forms },
            <<fb, op>> \in UNION { { <<f, o>> : o \in Ops(f, "b1") } : f \in Forms }, body \in FBodies }
 
 Init == P \in Progs /\ S = Start(P)
